@@ -273,6 +273,12 @@ func (r *Region) Origins(v RV) []RV {
 				}
 			}
 		case *ssa.Call:
+			if ops := cmpOrOperands(x); len(ops) >= 2 {
+				for _, o := range ops {
+					walk(o, c, via, d+1)
+				}
+				return
+			}
 			if c != nil {
 				if k := c.kids[x]; k != nil && !r.opaque(k.fn) && x.Call.Signature().Results().Len() == 1 {
 					for _, ret := range returnsOf(k.fn) {
